@@ -285,4 +285,6 @@ func VerifC18Template() {
 // vTemplateCache adds OwnersForGKV to the cache double (event wiring only; not used by a reconcile pass).
 type vTemplateCache struct{ *verifk8s.Cache }
 
-func (c *vTemplateCache) OwnersForGKV(schema.GroupVersionKind) []dynamiccache.OwnerReference { return nil }
+func (c *vTemplateCache) OwnersForGKV(schema.GroupVersionKind) []dynamiccache.OwnerReference {
+	return nil
+}
